@@ -89,6 +89,48 @@ func levelKeyKind(c *core.Ctx, fn *core.Func, info *types.Info, key ast.Expr, at
 	if _, isParam := paramIndex(fn, obj); isParam {
 		return "parameter " + obj.Name()
 	}
+	// parameter of a local closure: every call of the closure in this function passes a current level
+	for _, pn := range pathTo(fn.Decl.Body, at) {
+		lit, ok := pn.(*ast.FuncLit)
+		if !ok || lit.Type.Params == nil {
+			continue
+		}
+		pi, k := -1, 0
+		for _, fld := range lit.Type.Params.List {
+			for _, nm := range fld.Names {
+				if info.Defs[nm] == obj {
+					pi = k
+				}
+				k++
+			}
+		}
+		if pi < 0 {
+			continue
+		}
+		name := closureVar(info, fn.Decl.Body, lit)
+		if name == nil {
+			return ""
+		}
+		kinds, n := "", 0
+		okAll := true
+		ast.Inspect(fn.Decl.Body, func(x ast.Node) bool {
+			call, ok := x.(*ast.CallExpr)
+			if !ok || core.ObjOf(info, call.Fun) != name || pi >= len(call.Args) {
+				return true
+			}
+			n++
+			kd := levelKeyKind(c, fn, info, call.Args[pi], call)
+			if kd == "" {
+				okAll = false
+			}
+			kinds += kd + "; "
+			return true
+		})
+		if okAll && n > 0 {
+			return "parameter of the local closure " + name.Name() + ", which is called with: " + kinds
+		}
+		return ""
+	}
 	// range key over a level-keyed map / range value over a []Level slice / counted descent loop
 	path := pathTo(fn.Decl.Body, at)
 	// a loop over levels nested inside another loop over levels: inside, the state of one level is touched while
@@ -287,6 +329,12 @@ func r19RequestedSetOnlySelects(c *core.Ctx) {
 					return true
 				}
 			case *ast.IndexExpr:
+				// membership test wrapped in a local predicate closure `func(l) bool { _, ok := levelMap[l]; return ok }`
+				// whose every call is the condition of an if that only stores into the per-level result of that level
+				if okPred := membershipClosureOnlySelects(info, f.Decl.Body, path, p); okPred {
+					c.OK(R, construct, id.Pos(), "membership predicate closure; every call guards only the store into the per-level result")
+					return true
+				}
 				// membership test `_, ok := levelMap[k]` as the Init of an if whose body only stores into the per-level result
 				if len(path) >= 4 {
 					if as, ok := path[len(path)-3].(*ast.AssignStmt); ok && len(as.Lhs) == 2 {
@@ -964,4 +1012,84 @@ func r18bNoSharedStoragePerLevel(c *core.Ctx) {
 	}
 	c.Note(R, "%d stores into level-keyed maps inside loops inspected", n)
 	c.Floor(R, 8)
+}
+
+// closureVar: the local variable a function literal is bound to (`name := func…`), if it is bound exactly so.
+func closureVar(info *types.Info, body ast.Node, lit *ast.FuncLit) types.Object {
+	var out types.Object
+	ast.Inspect(body, func(n ast.Node) bool {
+		as, ok := n.(*ast.AssignStmt)
+		if !ok || len(as.Lhs) != len(as.Rhs) {
+			return true
+		}
+		for i, r := range as.Rhs {
+			if ast.Unparen(r) == ast.Expr(lit) {
+				out = core.ObjOf(info, as.Lhs[i])
+			}
+		}
+		return true
+	})
+	return out
+}
+
+// membershipClosureOnlySelects: the index expression ix (levelMap[param]) is the whole business of a local closure
+// `func(l Level) bool { _, ok := levelMap[l]; return ok }`, and every use of that closure is a call standing alone
+// as the condition of an if without else whose body only stores into level-keyed results under the call's argument.
+func membershipClosureOnlySelects(info *types.Info, body *ast.BlockStmt, path []ast.Node, ix *ast.IndexExpr) bool {
+	var lit *ast.FuncLit
+	for _, pn := range path {
+		if l, ok := pn.(*ast.FuncLit); ok {
+			lit = l
+		}
+	}
+	if lit == nil || len(lit.Body.List) != 2 || lit.Type.Params == nil || lit.Type.Params.NumFields() != 1 {
+		return false
+	}
+	as, ok := lit.Body.List[0].(*ast.AssignStmt)
+	if !ok || len(as.Lhs) != 2 || len(as.Rhs) != 1 || ast.Unparen(as.Rhs[0]) != ast.Expr(ix) || canon(as.Lhs[0]) != "_" {
+		return false
+	}
+	ret, ok := lit.Body.List[1].(*ast.ReturnStmt)
+	if !ok || len(ret.Results) != 1 || core.ObjOf(info, ret.Results[0]) == nil || core.ObjOf(info, ret.Results[0]) != core.ObjOf(info, as.Lhs[1]) {
+		return false
+	}
+	if core.ObjOf(info, ix.Index) != info.Defs[lit.Type.Params.List[0].Names[0]] {
+		return false
+	}
+	name := closureVar(info, body, lit)
+	if name == nil {
+		return false
+	}
+	okAll, n := true, 0
+	ast.Inspect(body, func(x ast.Node) bool {
+		id, ok := x.(*ast.Ident)
+		if !ok || info.Uses[id] != name {
+			return true
+		}
+		n++
+		p := pathTo(body, id)
+		if len(p) < 3 {
+			okAll = false
+			return true
+		}
+		call, isCall := p[len(p)-2].(*ast.CallExpr)
+		is, isIf := p[len(p)-3].(*ast.IfStmt)
+		if !isCall || !isIf || call.Fun != ast.Expr(id) || is.Cond != ast.Expr(call) || is.Else != nil || len(call.Args) != 1 || len(is.Body.List) == 0 {
+			okAll = false
+			return true
+		}
+		for _, s := range is.Body.List {
+			st, ok := s.(*ast.AssignStmt)
+			if !ok || len(st.Lhs) != 1 {
+				okAll = false
+				continue
+			}
+			lx, ok := st.Lhs[0].(*ast.IndexExpr)
+			if !ok || !isLevelKeyed(info.TypeOf(lx.X)) || canon(lx.Index) != canon(call.Args[0]) {
+				okAll = false
+			}
+		}
+		return true
+	})
+	return okAll && n > 0
 }
